@@ -80,6 +80,13 @@ Theorem C09_no_slot_for_no_reply_flag : forall cf st c m st' o,
 Proof. exact noreply_opens_nothing. Qed.
 Print Assumptions C09_no_slot_for_no_reply_flag.
 
+(* a message the bus answers itself (any refusal: no owner, fds, policy, outstanding serial, reply limit, FULL OUTGOING QUEUE of
+   the recipient) and that carries no REPLY_SERIAL leaves the pending-reply table untouched: any state, any policy *)
+Theorem C09_refused_call_leaves_no_slot : forall cf st c m st' o,
+  m_rserial m = 0 -> dispatch cf st c m = (st', o) -> (forall x, fwd_to o x = false) -> st_pend st' = st_pend st.
+Proof. exact refused_leaves_no_slot. Qed.
+Print Assumptions C09_refused_call_leaves_no_slot.
+
 (* per-receiver limit, every history *)
 Theorem C09_limit : forall cf h a, count_get a (st_pend (state_of cf h)) <= max_replies cf.
 Proof. exact limit_holds. Qed.
@@ -153,3 +160,14 @@ Example ex_noreply_timeout :
 Example ex_limit :
   snd (step (mkCfg true 1 None) (state_of (mkCfg true 1 None) h_ok) (ESend 0 (mkMsg TCall false false 8 0 (DUnique 2) 0 3))) = [(0, OErr ELimitsExceeded 8)].
 Proof. vm_compute. reflexivity. Qed.
+
+(* callee 1 stalled with its queue at the bus over the limit: the call bounces LimitsExceeded and opens no slot; after it
+   drains, its "reply" is refused, its disconnect produces no NoReply *)
+Definition cfg_t : cfg := mkCfg true 4 (Some 300).
+Definition h_q : list event := [EConnect false; EConnect false; EBlock 1; ESend 0 call_plain].
+Example ex_queue_full_bounce : snd (step cfg_t (state_of cfg_t [EConnect false; EConnect false; EBlock 1]) (ESend 0 call_plain)) = [(0, OErr ELimitsExceeded 7)].
+Proof. vm_compute. reflexivity. Qed.
+Example ex_queue_full_no_slot : st_pend (state_of cfg_t h_q) = []. Proof. vm_compute. reflexivity. Qed.
+Example ex_queue_full_reply_refused :
+  snd (step cfg_t (state_of cfg_t (h_q ++ [EDrain 1])) (ESend 1 reply_ok)) = [(1, OErr EAccessDenied 9)]. Proof. vm_compute. reflexivity. Qed.
+Example ex_queue_full_no_noreply : snd (step cfg_t (state_of cfg_t h_q) (ETick 420)) = []. Proof. vm_compute. reflexivity. Qed.
